@@ -64,7 +64,8 @@ class Deep:
                 if plugin_resource:
                     default_resource = default_resource.merge(plugin_resource)
             except Exception:
-                deep.logging.exception("Failed to process plugin resource {}", provider.name)
+                # do not read anything from the plugin in here, a failure in the handler would stop deep from starting
+                deep.logging.exception("Failed to process plugin resource %s", provider)
 
         self.config.resource = default_resource
         self.trigger_handler.start()
